@@ -96,6 +96,9 @@ STATIC = [
                                                            d("[OUTPut]:[STATe]", "oset", ["bool"]), d("OUTPut?", "oget", ret="bool"), d("STATe?", "sget", ret="bool")]},
     # one optional mnemonic twice in a header: the same spelling of the same handler arises more than once
     {"mod": "s23_self_overlap", "flags": [], "decls": [d("[ROUTe]:[ROUTe]:CLOSe", "rclose", ["u8"]), d("[SENSe]:[VOLTage]:[SENSe]:RANGe?", "srange"), d("[A]:[A]:X", "aax")]},
+    # more handlers than a byte can number, plus the built-in commands (whose ids follow the user's): an id type narrower
+    # than the declaration count must not make two declarations share a match key
+    {"mod": "s25_many", "flags": ["StandardCommands", "ErrorCommands"], "decls": [d("REGister%d?" % k_, "reg%d" % k_, ret="u16" if k_ % 2 else "i32") for k_ in range(256)]},
     # the options of the attribute in the other order: what is requested must not depend on the order it is requested in
     {"mod": "s18_flag_order", "flags": ["ErrorCommands", "StandardCommands"], "decls": [d("USER:CMD", "u"), d("OTHer?", "o")]},
 ]
